@@ -35,10 +35,12 @@ type CVar struct {
 	Type CType
 }
 type CType struct {
-	Ptr   int
-	Slice bool
-	Pkg   string
-	Name  string
+	Ptr     int
+	Slice   bool
+	Pkg     string
+	Name    string
+	MapKey  *CType
+	MapElem *CType
 }
 type CQuant struct {
 	Forall bool
@@ -274,6 +276,14 @@ func (p *cparser) ctype() CType {
 		ty.Ptr++
 	}
 	n := p.ident()
+	if n == "map" && p.isOp("[") {
+		p.next()
+		k := p.ctype()
+		p.expect("]")
+		v := p.ctype()
+		ty.MapKey, ty.MapElem = &k, &v
+		return ty
+	}
 	if p.accept(".") {
 		ty.Pkg = n
 		ty.Name = p.ident()
